@@ -61,42 +61,27 @@ func runSolver(sp solverSpec, file string, ms int, seed int, ctx context.Context
 	return solveResult{Status: st, Solver: sp.name, Secs: time.Since(start).Seconds(), Output: txt}
 }
 
-// solve decides one SMT file.  tier selects the time budget.
+// solve decides one SMT file: the three solvers are raced and the first
+// definitive answer (sat/unsat) wins.
 func solve(file string, budgetMs int, seed int) solveResult {
-	total := 0.0
-	// stage 1: z3-new alone (most obligations discharge in < 0.1 s)
-	r := runSolver(solvers[0], file, budgetMs, seed, context.Background())
-	total += r.Secs
-	if r.Status != "unknown" {
-		return r
-	}
-	firstOut := r.Output
-	// stage 2: race the others
 	ctx, cancel := context.WithCancel(context.Background())
 	defer cancel()
 	ch := make(chan solveResult, len(solvers))
-	n := 0
-	for _, sp := range solvers[1:] {
-		n++
+	for _, sp := range solvers {
 		go func(sp solverSpec) { ch <- runSolver(sp, file, budgetMs, seed, ctx) }(sp)
 	}
-	best := solveResult{Status: "unknown", Solver: "all", Output: firstOut}
-	for i := 0; i < n; i++ {
+	best := solveResult{Status: "unknown", Solver: "all"}
+	for i := 0; i < len(solvers); i++ {
 		r := <-ch
-		if r.Secs > 0 {
-			total += 0
-		}
 		if r.Status != "unknown" {
 			cancel()
-			r.Secs += total
 			return r
 		}
-		best.Output += "\n--- " + r.Solver + "\n" + r.Output
+		best.Output += "--- " + r.Solver + "\n" + r.Output + "\n"
 		if r.Secs > best.Secs {
 			best.Secs = r.Secs
 		}
 	}
-	best.Secs += total
 	return best
 }
 
